@@ -36,6 +36,9 @@ func writeStep(g *vkit.Rand, big bool) hStep {
 	if c < 100 && n > 3000 {
 		c = 512 + g.Intn(4000)
 	}
+	if n >= 1<<20 && c < 4096 {
+		c = 4096 + g.Intn(60000)
+	}
 	return hStep{Op: "write", N: n, Chunk: c, Flush: g.Chance(1, 3)}
 }
 
